@@ -139,6 +139,10 @@ def path_conditions(fn, target) -> List[Tuple[ast.AST, bool]]:
                     out.append(_literal(st.test, True))
             elif isinstance(st, ast.Assert):
                 out.append(_literal(st.test, True))
+            elif isinstance(st, ast.While) and not st.orelse and not any(isinstance(n, ast.Break) for n in ast.walk(st)) \
+                    and not (isinstance(st.test, ast.Constant) and st.test.value):
+                # a loop without break is left only when its test fails (`while x in used: x += 1` -> afterwards x is not in used)
+                out.append(_literal(st.test, False))
         if k + 1 < len(p):
             st = block[idx]
             nxt = p[k + 1][0]
